@@ -245,6 +245,25 @@ def run(ctx, b, broken):
             got = [c for k_, c in log2 if not (k_ == "G" and c in hs)]     # a handler calls generic_visit itself: drop that echo
             if got != paths or any((c in hs) != (k_ == "H") for k_, c in log2 if not (k_ == "G" and c in hs)):
                 bad = f"visit_X for X in {sorted(hs)}: handlers / generic traversal did not see exactly the reachable nodes in order ({len(got)} of {len(paths)})"
+        # 2b. a visitor that does NOT override generic_visit (the library's own traversal does all the walking): handlers for two classes
+        #     record and do not descend; reference = recursive walk over children() that stops at these classes
+        if not bad:
+            hs2 = set(ctx.rng.sample(present, min(2, len(present)))) | ({"ID", "Constant"} & set(present))
+            hs2.discard("FileAST")
+            log3 = []
+            V2b = type("V2b", (c_ast.NodeVisitor,), {"visit_" + c: (lambda self, n_: log3.append(type(n_).__name__)) for c in hs2})
+            V2b().visit(tree)
+            ref3 = []
+
+            def walk3(n_):
+                if type(n_).__name__ in hs2:
+                    ref3.append(type(n_).__name__)
+                    return
+                for _nm, ch in n_.children():
+                    walk3(ch)
+            walk3(tree)
+            if log3 != ref3:
+                bad = f"a visitor with handlers for {sorted(hs2)} only (generic_visit not overridden) saw {len(log3)} of the {len(ref3)} nodes of these classes that the library's traversal must reach"
         # 3. a visitor whose handler raises in the middle of the first traversal is used again
         if not bad and len(present) > 1:
             target = ctx.rng.choice(present[1:]) if present[0] == "FileAST" else ctx.rng.choice(present)
